@@ -13,7 +13,7 @@ import (
 	sdk "github.com/cosmos/cosmos-sdk/types"
 )
 
-func ratOfDec(d sdkmath.LegacyDec) *big.Rat {
+func clRatOfDec(d sdkmath.LegacyDec) *big.Rat {
 	return new(big.Rat).SetFrac(d.BigInt(), new(big.Int).Exp(big.NewInt(10), big.NewInt(18), nil))
 }
 
@@ -32,19 +32,19 @@ func exactSwapExactIn(ctx sdk.Context, k lpkeeper.Keeper, poolId uint64, baseFor
 	}
 	fee := new(big.Rat)
 	if feeEnabled {
-		fee = ratOfDec(sdkmath.LegacyMustNewDecFromStr(p.FeeRate))
+		fee = clRatOfDec(sdkmath.LegacyMustNewDecFromStr(p.FeeRate))
 	}
 	one := big.NewRat(1, 1)
 	oneMinusFee := new(big.Rat).Sub(one, fee)
-	P := ratOfDec(sdkmath.LegacyMustNewDecFromStr(p.CurrentSqrtPrice))
-	L := ratOfDec(sdkmath.LegacyMustNewDecFromStr(p.CurrentTickLiquidity))
+	P := clRatOfDec(sdkmath.LegacyMustNewDecFromStr(p.CurrentSqrtPrice))
+	L := clRatOfDec(sdkmath.LegacyMustNewDecFromStr(p.CurrentTickLiquidity))
 	var ticks []exactTick
 	for _, t := range k.GetAllInitializedTicksForPool(ctx, poolId) {
 		sp, err := lptypes.TickToSqrtPrice(t.TickIndex, p.TickParams)
 		if err != nil {
 			return nil, 0
 		}
-		ticks = append(ticks, exactTick{t.TickIndex, ratOfDec(sp), ratOfDec(sdkmath.LegacyMustNewDecFromStr(t.LiquidityNet))})
+		ticks = append(ticks, exactTick{t.TickIndex, clRatOfDec(sp), clRatOfDec(sdkmath.LegacyMustNewDecFromStr(t.LiquidityNet))})
 	}
 	sort.Slice(ticks, func(i, j int) bool { return ticks[i].tick < ticks[j].tick })
 	var path []exactTick
